@@ -9,3 +9,4 @@ pub mod c03;
 pub mod c04;
 pub mod c18;
 pub mod c12;
+pub mod c11;
